@@ -3,6 +3,7 @@ package machine
 // MK: common building blocks of the machine-level harnesses (DESIGN.md section 4).
 
 //verif:go * drop
+//verif:go (*github.com/pancsta/asyncmachine-go/pkg/machine.Machine).handlerLoop task
 //verif:mode fork
 //verif:panics violation
 //verif:notimers
